@@ -159,6 +159,7 @@ func gen(seed uint64, tier string, idx int) sim.CaseI {
 	}
 	nvals := 4
 	hot := wr.Intn(nvals)
+	hotArg := wr.Intn(5) // most operations that create new labels create the same ones
 	for w := 0; w < nw; w++ {
 		wk := Worker{Own: wr.Bool(0.12)}
 		for o := wr.Range(3, 10); o > 0; o-- {
@@ -171,6 +172,9 @@ func gen(seed uint64, tier string, idx int) sim.CaseI {
 			op := Op{Kind: opKinds[wr.Intn(len(opKinds))], Val: hot, Path: strings.ReplaceAll(p, "_S", "_"+c.Suffix), Arg: wr.Intn(5)}
 			if wr.Bool(0.3) {
 				op.Val = wr.Intn(nvals)
+			}
+			if wr.Bool(0.7) {
+				op.Arg = hotArg
 			}
 			wk.Ops = append(wk.Ops, op)
 		}
